@@ -135,6 +135,22 @@ pub fn check(ctx: &Ctx, c: &Case, label: &str, counting: bool) -> Result<(), Fai
 	let fail = |sig: &str, msg: String| Fail::new(format!("op=incremental {}", sig), format!("v{}.{}: {}", m.version.0, m.version.1, msg)).with_file("slp", &bytes).with_detail(detail.clone());
 	let one = rt::slp_read_default(&bytes).expect_ok("slippi::read").map_err(|f| f.with_file("slp", &bytes))?;
 	let fin = view_immutable(&one.frames);
+	// the reference of the differential must itself be a finished, rectangular game: every column and
+	// bitmap has one entry per frame row (otherwise "equals the one-shot game" is not meaningful)
+	{
+		let n = fin.ids.len();
+		let ragged = |cols: &crate::access::Cols| cols.iter().find(|(_, c)| c.as_ref().map_or(false, |c| c.len() != n)).map(|(p, c)| format!("{} has {} entries", p, c.as_ref().unwrap().len()));
+		for p in &fin.ports {
+			for (w, ch) in [("leader", Some(&p.leader)), ("follower", p.follower.as_ref())] {
+				if let Some(ch) = ch {
+					let bad = ragged(&ch.pre).or_else(|| ragged(&ch.post)).or_else(|| ch.valid.as_ref().filter(|v| v.len() != n).map(|v| format!("validity has {} entries", v.len())));
+					if let Some(b) = bad {
+						return Err(fail("oneshot_ragged", format!("the one-shot game is not rectangular: P{} {}: {} for {} frame rows", p.port + 1, w, b, n)));
+					}
+				}
+			}
+		}
+	}
 	let v = m.v();
 	let has_fend = spec::gte(v, (3, 0));
 	let version = one.start.slippi.version;
